@@ -1,0 +1,11 @@
+//go:build verif
+
+package loader
+
+import "context"
+
+// VerifApplyExtends runs ApplyExtends with a fresh cycle tracker (the tracker type is unexported).
+// Compiled only with the `verif` build tag.
+func VerifApplyExtends(ctx context.Context, dict map[string]any, opts *Options) error {
+	return ApplyExtends(ctx, dict, opts, &cycleTracker{})
+}
